@@ -218,7 +218,12 @@ fn scripted(seed: u64, jitter: u64, rep: &Report) -> Result<(), String> {
         let n0 = cell.log.len();
         send_cancel(&addr, x.pid, x.key).map_err(|e| e.to_string())?;
         rep.count("cancels_during_autocommit_copy_in", 1);
-        sleep_ms(200);
+        // keep streaming: the pooler's idle-in-transaction timeout (150 ms here) must not end the
+        // COPY, and with it the server session, while the CancelRequest is still on its way
+        for _ in 0..5 {
+            sleep_ms(40);
+            x.send(&proto::copy_data(b"2\ttwo\n")).map_err(|e| e.to_string())?;
+        }
         let cs = cancels_since(&cell, n0);
         if cs.is_empty() {
             rep.violation(
@@ -233,7 +238,7 @@ fn scripted(seed: u64, jitter: u64, rep: &Report) -> Result<(), String> {
             if c.3.as_deref() != Some("X") {
                 rep.violation(
                     "C10|cancel_hit_session_not_running_requesters_statement",
-                    &format!("during X's COPY FROM STDIN a cancel with X's key arrived at a session of {:?}", c.3),
+                    &format!("during X's COPY FROM STDIN a cancel with X's key arrived at a session of {:?} (matched sid {:?}, running {:?}; all cancels seen: {:?})", c.3, c.1, c.2, cs),
                     wit(&mut cell),
                 );
             }
@@ -426,7 +431,10 @@ fn storm(seed: u64, rep: &Report) -> Result<(), String> {
                 // clients that used this session in the 2 s before the CancelRequest arrived
                 let mut users: Vec<String> = usage
                     .get(&matched_sid.unwrap())
-                    .map(|v| v.iter().filter(|(t, _)| *t <= e.t && e.t - *t < 2_000_000_000).map(|x| x.1.clone()).collect())
+                    // ... or whose first message on it arrived shortly AFTER the CancelRequest: the
+                    // pooler maps a client's key to a server when it checks the server out, which is
+                    // before that client's statement is written to it
+                    .map(|v| v.iter().filter(|(t, _)| (*t <= e.t && e.t - *t < 2_000_000_000) || (*t > e.t && *t - e.t < 500_000_000)).map(|x| x.1.clone()).collect())
                     .unwrap_or_default();
                 users.push(w.clone());
                 let justified = users.iter().any(|u| {
